@@ -1,13 +1,13 @@
 # Table of claimed properties (exec'd by gen_manifest.py).
 ENGINES = [
     {"name": "E1-bfs", "path": "harness/core/src/bfs.rs",
-     "serves_properties": [],
+     "serves_properties": ["C03", "C04", "C07", "C12", "C13", "C14"],
      "kind_free_text": "explicit-state breadth-first search over the REAL transition function (each transition re-executes mila on a fresh object), level-synchronous and deterministic, canonical-state de-duplication, reference model in lock-step as oracle"},
     {"name": "E2-enumerate", "path": "harness/core/src/tally.rs",
-     "serves_properties": [],
+     "serves_properties": ["C01", "C02", "C04", "C06", "C08", "C09", "C10", "C14", "C15", "C16", "C17", "C18", "C19", "C20"],
      "kind_free_text": "bounded-exhaustive enumeration of an input/configuration family (every member, never sampled) through the real code, judged by independent reference codecs/parsers"},
     {"name": "E3-isolate", "path": "harness/core/src/isolate.rs",
-     "serves_properties": [],
+     "serves_properties": ["C05", "C09", "C11", "C20"],
      "kind_free_text": "the same enumeration executed in worker subprocesses under a measuring/capping global allocator and a watchdog, so aborts, oversized allocations and non-termination are attributed to one case"},
 ]
 NOTES = ("All checks explore mila itself (no separate abstract model): states/transitions in the evidence are real executions. "
